@@ -41,13 +41,6 @@ AnomSeqs(kind, nf, nv) ==
     \cup {<<[h |-> h, what |-> w, at |-> a]>> : h \in Helpers, w \in Whats, a \in Places(kind, nf, nv)}
     \cup {<<[h |-> "derive_ex", what |-> w, at |-> a]>> : w \in {"unknown_trait", "bad_arg"}, a \in Places(kind, nf, nv) \ {"type"}}
 
-Descriptors ==
-    \* struct / enum: everything varies (an unreadable list is crossed with the rest only without dump: it fails as a whole anyway)
-    {[kind |-> k, syntax_ok |-> s, traits |-> tr, nfields |-> fc[1], ntransp |-> fc[2], nvariants |-> vc[1], nmarked |-> vc[2],
-      anomalies |-> an, dump |-> d] :
-        k \in {"struct", "enum"}, s \in BOOLEAN, tr \in TraitSeqs, fc \in Combos, vc \in Combos,
-        an \in AnomSeqs("enum", 2, 2), d \in {"none", "all", "first"}}
-
 WellFormed(p) ==
     /\ p.kind = "struct" => p.nvariants = 1 /\ p.nmarked = 0
     /\ p.kind = "enum" /\ p.nvariants = 0 => p.nfields = 0 /\ p.ntransp = 0
@@ -59,8 +52,14 @@ OtherDescriptors ==
 
 Entries2(p) == IF p.kind = "other" THEN {"attr"} ELSE {"attr", "derive"}    \* rustc accepts #[derive] on struct / enum / union only
 
+\* struct / enum: everything varies (an unreadable list is crossed with the rest only without dump: it fails as a whole anyway)
 Init ==
-    /\ P \in {p \in Descriptors : WellFormed(p)} \cup OtherDescriptors
+    /\ \/ \E k \in {"struct", "enum"}, s \in BOOLEAN, tr \in TraitSeqs, fc \in Combos, vc \in Combos,
+              an \in AnomSeqs("enum", 2, 2), d \in {"none", "all", "first"} :
+              LET p == [kind |-> k, syntax_ok |-> s, traits |-> tr, nfields |-> fc[1], ntransp |-> fc[2], nvariants |-> vc[1],
+                        nmarked |-> vc[2], anomalies |-> an, dump |-> d]
+              IN  WellFormed(p) /\ P = p
+       \/ P \in OtherDescriptors
     /\ entry \in Entries2(P)
     /\ pc = "dispatch" /\ kinds = {"derive_ex"} /\ es = <<>> /\ i = 0 /\ out = <<>> /\ err = FALSE /\ removed = {}
 
